@@ -374,6 +374,7 @@ type c17Run struct {
 	pclosed    bool
 
 	binary    bool
+	unknown   bool
 	mild      bool // relay in the path: garbage without trigger / FAIL text (the relay itself reacts to those)
 	relayPort atomic.Int64
 	sigMu     sync.Mutex
@@ -667,7 +668,11 @@ func (t *trzszTransfer) serverErrorQuiet(err error) {
 // finishTransfer waits for both roles and emits ret / fs.
 func (r *c17Run) finishTransfer(constrained bool) (hung bool) {
 	wd := 100 * time.Second
-	if !constrained {
+	if r.unknown {
+		// it cannot be told from outside whether a stranger that knew the greeting was adopted
+		// somewhere on the path: let the transfer run, but do not wait beyond the code's own time-outs
+		wd = 35 * time.Second
+	} else if !constrained {
 		// a stranger that knew the greeting was adopted: nothing is promised; end it quickly
 		time.Sleep(30 * time.Millisecond)
 		r.st.stopTransferringFiles(false)
@@ -723,14 +728,14 @@ func (r *c17Run) finishTransfer(constrained bool) (hung bool) {
 		cerr = cerr[:200]
 	}
 	same, detail := r.compareFiles()
-	if hung && constrained {
+	if hung && constrained && !r.unknown {
 		r.aux["hung"] = true
 	}
 	r.aux["server_err"], r.aux["client_err"], r.aux["fs_detail"] = serr, cerr, detail
 	r.rec.emit(map[string]any{"e": "ret", "role": "V", "ok": sok, "msg": serr}, nil)
 	r.rec.emit(map[string]any{"e": "ret", "role": "C", "ok": cok, "msg": cerr}, nil)
 	r.rec.emit(map[string]any{"e": "fs", "same": same, "detail": detail}, nil)
-	return hung && constrained
+	return hung && constrained && !r.unknown
 }
 
 func (r *c17Run) compareFiles() (bool, string) {
@@ -1989,8 +1994,8 @@ func c17RunRelay(p *c17TCPPlan, base string) ([]map[string]any, map[string]any, 
 	for _, d := range r.dialers {
 		// a stranger the relay answered had its own upstream connection greeted by the server,
 		// which may be the one the server adopted: nothing is promised then
-		if d.gotRep {
-			constrained = false
+		if d.gotRep && constrained {
+			r.unknown = true
 		}
 	}
 	tA := time.Now()
